@@ -214,6 +214,18 @@ def check_property(prop, cfg, tier="quick", seed=0):
             trusted += r.get("trusted", [])
             functions += r.get("functions", [])
             for k, v in r.get("coverage", {}).items(): extra_cov[k] = v
+        # bounded fallbacks: consulted ONLY when the deductive check is undecided (lost anchor, construct outside the subset, ...). A failing
+        # input they find on the real code is a violation with a concrete replay; finding none leaves the verdict undecided (exit 2).
+        if not violations and (tool_errors or undecided):
+            for eng in cfg.get("fallback", []):
+                r = eng(prop, tier, work)
+                for o, info in r["obligations"].items():
+                    obligations[o] = info
+                    if info.get("ok"): discharged.add(o)
+                violations += r.get("violations", [])
+                tool_errors += r.get("tool_errors", [])
+                cmds += r.get("cmds", [])
+                extra_cov["fallback_consulted"] = True
     finally:
         shutil.rmtree(work, ignore_errors=True)
     # ---- report --------------------------------------------------------------------------------------
